@@ -157,8 +157,22 @@ macro_rules! c17_universe {
                 }
             }
 
-            fn backend(lanes: usize) -> Backend {
-                FriRecursionBackend::<{ $w }, { $r }, _>::new($p2cfg).with_recompose_lanes(lanes).for_extension_degree::<{ $d }>()
+            /// `pack`: packing id of the step = recompose lanes + 16 * Horner k + 256 * optimized profile
+            fn backend(pack: usize) -> Backend {
+                FriRecursionBackend::<{ $w }, { $r }, _>::new($p2cfg).with_recompose_lanes((pack % 16).max(1)).for_extension_degree::<{ $d }>()
+            }
+
+            /// The step's proving parameters: Horner packing factor and constraint profile follow the packing id.
+            fn params_for(fri: &FriShape, pack: usize) -> ProveNextLayerParams {
+                let mut p = params(fri);
+                let k = pack / 16 % 16;
+                if k >= 2 {
+                    p.table_packing = p.table_packing.with_horner_pack_k(k);
+                }
+                if pack / 256 == 1 {
+                    p.constraint_profile = p3_circuit_prover::ConstraintProfile::RecursionOptimized;
+                }
+                p
             }
 
             fn params(fri: &FriShape) -> ProveNextLayerParams {
@@ -349,10 +363,20 @@ macro_rules! c17_universe {
                     out.steps += 1;
                     let detail = json!({"history": h, "step": si});
                     OTHER_PACKING.with(|c| c.set(false));
-                    let lanes = if h.vary_lanes { [1usize, 1, 2, 3][(mix(h.seed, si as u64) % 4) as usize] } else { 1 };
+                    // parameter changes between steps: recompose lanes, Horner packing factor,
+                    // constraint profile of the layer proven by this step
+                    let lanes = if h.vary_lanes {
+                        let l = [1usize, 1, 2, 3][(mix(h.seed, si as u64) % 4) as usize];
+                        let k = [2usize, 3, 4, 5][(mix(h.seed, 100 + si as u64) % 4) as usize];
+                        let opt = usize::from(mix(h.seed, 200 + si as u64) % 2 == 0);
+                        l + 16 * k + 256 * opt
+                    } else {
+                        1
+                    };
                     if lanes != 1 {
-                        out.count("step_with_non_default_recompose_lanes");
+                        out.count("step_with_non_default_packing");
                     }
+                    let p = if h.vary_lanes { params_for(&h.fri, lanes) } else { p.clone() };
                     let (twin, cached, stale, what, counters) = match step {
                         Step::Next(i, mode) => {
                             if *i >= pool.len() {
@@ -479,7 +503,7 @@ pub fn one_run(ctx: &Ctx, idx: u64, out: &mut RunOut) {
     let mut h = gen_history(&mut rng, ctx.tier.pick(6, 9));
     // one run in four over Goldilocks with the degree-2 backend
     h.universe = if idx % 4 == 3 { "GL2".into() } else { "KB4".into() };
-    h.vary_lanes = idx % 3 == 1;
+    h.vary_lanes = idx % 2 == 1;
     if out.samples.is_empty() {
         out.samples.push(json!({"history": h}));
     }
